@@ -203,6 +203,10 @@ package writer
 //@ func releaseWriterState
 //@   safety[C12,C18]
 //@   requires s != nil
+//@   resets[C18] s
+//@   retains s._stack      backing arrays of the three stacks: unreachable while the slices are empty
+//@   retains s._elements
+//@   retains s._fields
 //@   modifies @STATE
 //@   modifies pools.*
 
